@@ -498,7 +498,11 @@ def main(argv):
 
 PROP_NOTES = {}
 try:
-    PROP_NOTES = json.load(open(os.path.join(VERIF, 'vf', 'prop_notes.json')))
+    # the unchecked assumptions of each property are maintained next to its claim (vf/claims.json -> MANIFEST level_note)
+    for _c in json.load(open(os.path.join(VERIF, 'vf', 'claims.json'))):
+        if _c.get('claimed'):
+            PROP_NOTES[_c['id']] = [x.strip() for x in re.split(r';\s+', _c.get('level_note', '')) if x.strip()] + \
+                ['every assume_specification / external_body / uninterpreted function / axiom found by the mechanical scan of this run is itemised in coverage.trusted_base']
 except Exception:
     pass
 
